@@ -464,7 +464,7 @@ fn main() {
         let idx: Vec<usize> = (0..rel3.len()).collect();
         par_items(&run, "C03 spelled bounds", &idx, |_, ai, t| {
             for (li, lo) in rel3.iter().enumerate() {
-                if !run.thorough() && (li + *ai) % 2 == 1 {
+                if !run.thorough() && (li + *ai + li / 6 + *ai / 6) % 2 == 1 {
                     continue;
                 }
                 for hi in rel3.iter() {
